@@ -30,10 +30,10 @@ const (
 )
 
 type Event struct {
-	Kind int
-	A, B *Term
-	Obj  Value
-	Site string
+	Kind    int
+	A, B, C *Term
+	Obj     Value
+	Site    string
 }
 
 type SymDisk struct {
@@ -54,6 +54,7 @@ type World struct {
 	watch    map[string]bool
 	nextDisk int
 	allocRep map[Loc]*allocRep
+	releasedSinceBegin bool
 }
 
 type allocRep struct{ base, stride, k uint64 }
@@ -308,8 +309,11 @@ func rtStubs(m map[string]stubFn) {
 			if ev.B != nil {
 				l.f[2].Store(ZExt(64, ev.B))
 			}
+			if ev.C != nil {
+				l.f[3].Store(ZExt(64, ev.C))
+			}
 			if ev.Obj != nil {
-				l.f[3].Store(ev.Obj)
+				l.f[4].Store(ev.Obj)
 			}
 			cells[i] = l
 		}
@@ -554,8 +558,18 @@ func envStubs(m map[string]stubFn) {
 				e.end("blocked", "self-deadlock: lock acquired while already held by the same request at "+e.callerSite())
 			}
 		}
+		// B = 1 iff x is greater than every lock currently held (ascending acquisition);
+		// C = 1 iff some lock was released since the transaction began (two-phase discipline broken)
+		asc := BoolC(true)
+		for _, h := range e.world.held {
+			asc = And(asc, Cmp("bvult", h, x))
+		}
+		c := c64(0)
+		if e.world.releasedSinceBegin {
+			c = c64(1)
+		}
 		e.world.held = append(e.world.held, x)
-		e.world.event(Event{Kind: EvAcquire, A: x, Site: e.callerSite()})
+		e.world.event(Event{Kind: EvAcquire, A: x, B: Ite(asc, c64(1), c64(0)), C: c, Site: e.callerSite()})
 		return nil
 	}
 	m[L+"Release"] = func(e *Engine, fn *ssa.Function, a []Value) Value {
@@ -563,6 +577,9 @@ func envStubs(m map[string]stubFn) {
 		for i, h := range e.world.held {
 			if h == x || e.decide(Cmp("=", h, x)) {
 				e.world.held = append(e.world.held[:i:i], e.world.held[i+1:]...)
+				e.world.releasedSinceBegin = true
+				// C = 1 iff the transaction has appended to the journal or this is an abort path is not
+				// knowable here; the harness relates releases to append events by position
 				e.world.event(Event{Kind: EvRelease, A: x, Site: e.callerSite()})
 				return nil
 			}
@@ -617,6 +634,7 @@ func envStubs(m map[string]stubFn) {
 	}
 	m["github.com/mit-pdos/go-nfsd/fstxn.Begin"] = func(e *Engine, fn *ssa.Function, a []Value) Value {
 		e.world.event(Event{Kind: EvBegin, Site: e.callerSite()})
+		e.world.releasedSinceBegin = false
 		return e.callBody(fn, a, nil)
 	}
 }
